@@ -444,6 +444,8 @@ class LibGen:
         r = self.r
         reals = [nm for nm, t, par, dims in cls_leaves if t == "Real" and not dims]
         unk = [nm for nm, t, par, dims in cls_leaves if t == "Real" and not par and not dims]
+        arrays = [(nm, dims) for nm, t, par, dims in cls_leaves if t == "Real" and len(dims) == 1]
+        subs = [nm for nm, t, par, dims in cls_leaves if t == "Integer" and par and nm.split(".")[-1].startswith("ks")]
         eqs = []
         if not unk:
             return eqs
@@ -455,7 +457,16 @@ class LibGen:
                 self.tags.add("eq:der")
             terms = None
             for _k in range(r.randint(1, 3)):
-                if reals and r.random() < 0.8:
+                if arrays and r.random() < 0.3:
+                    # an element of an array of scalars, subscripted by a literal or by an Integer parameter
+                    anm, adims = r.choice(arrays)
+                    if subs and r.random() < 0.6:
+                        t = ("idx", anm, [var(r.choice(subs))])
+                        self.tags.add("eq:subscript-is-a-parameter-reference")
+                    else:
+                        t = ("idx", anm, [num(r.randint(1, adims[0]))])
+                        self.tags.add("eq:array-element")
+                elif reals and r.random() < 0.8:
                     nm = r.choice(reals)
                     t = ("bin", "*", num(r.randint(2, 7)), var(nm)) if r.random() < 0.6 else var(nm)
                     if "." in nm:
@@ -518,6 +529,11 @@ class LibGen:
                     leaves.append((nm + "." + l[0], l[1], l[2], l[3]))
                 depth = max(depth, self.info[full]["depth"] + 1)
                 self.tags.add("class-typed-component")
+        if any(t == "Real" and len(dims) == 1 for _, t, _, dims in leaves) and r.random() < 0.6:
+            ks = self.fresh("ks")
+            cls["comps"].append({"name": ks, "type": "Integer", "prefixes": ["parameter"], "dims": [], "mods": [],
+                                 "value": num(r.randint(1, 2))})
+            leaves.append((ks, "Integer", True, []))
         cls["eqs"] = self.equations_for(leaves, r.randint(1, 3))
         if r.random() < 0.2:
             cls["ieqs"] = self.equations_for(leaves, 1)
